@@ -786,14 +786,16 @@ func (p *Parser) parseParamSpec(keyword token.Token, multi bool, _ any) Spec {
 		variadic = true
 		p.next()
 		ident = p.parseIdent()
+	} else {
+		p.error(pos, fmt.Sprintf("wrong %s declaration", keyword.String()))
+		// always consume something, otherwise the caller's loop over the
+		// specs of a parenthesized declaration never ends (e.g. "param ( }")
+		p.advance(stmtStart)
+		return &ParamSpec{}
 	}
 	if multi && p.token == token.Comma {
 		p.next()
 	} else if multi {
-		p.expectSemi()
-	}
-	if ident == nil {
-		p.error(pos, fmt.Sprintf("wrong %s declaration", keyword.String()))
 		p.expectSemi()
 	}
 	spec := &ParamSpec{
@@ -829,10 +831,11 @@ func (p *Parser) parseValueSpec(keyword token.Token, multi bool, data any) Spec 
 		} else if multi {
 			p.expectSemi()
 		}
-	}
-	if len(idents) == 0 {
+	} else {
 		p.error(pos, "wrong var declaration")
-		p.expectSemi()
+		// always consume something, otherwise the caller's loop over the
+		// specs of a parenthesized declaration never ends (e.g. "var ( }")
+		p.advance(stmtStart)
 	}
 	spec := &ValueSpec{
 		Idents: idents,
